@@ -428,8 +428,13 @@ def run_cross(ctx, case):
         elif e <= 1e-3:
             ctx.count("recovery_soft_fail:" + mode)
         else:
+            # the class of a recovery failure names whether the RETURNED ranks over-estimate an exact rank (then the intersection matrices
+            # of that bond are singular and the solve is a minimum-norm choice: the recorded, seed-dependent known finding) or not
+            over = any(a > b for a, b in zip(Rs[1:-1], r_true))
             report("recovery of a representable target", "relative max-norm error %.3g on the whole grid; exact TT ranks %s, result ranks %s, "
-                   "val_eps %s" % (e, r_true, Rs, [float(v) for v in info.get("val_epss", [])][-3:]))
+                   "val_eps %s" % (e, r_true, Rs, [float(v) for v in info.get("val_epss", [])][-3:]),
+                   extra={"predicate": "%s, %s ranks, returned ranks over-estimate an exact rank" % (
+                       tg["src"], "adaptive" if mode == "adaptive" else "fixed")} if over else None)
         if case.get("forward") and tg["src"] == "tensors":
             ts = tg["kw"]["tensors"]
             r2 = quiet(lambda: safe(lambda: num(tn.cross_forward(info, function=tg["f"], tensors=ts).torch())))
@@ -475,6 +480,53 @@ def run_cross(ctx, case):
             ctx.corr("cross: info['rsets'] is not the nesting of the last sweep's maxvol pivots (model rsetsOf): impl %s, model %s"
                      % (impl_sets, model_sets if okparse else ans[:6]), case)
         else:
+            # left index sets from info['left_locals'] (Model/Cross.lean lsetsAll), exact
+            try:
+                ll = [np.asarray(v, dtype=np.int64) for v in info["left_locals"]]
+                toks = ["cross_lsets", str(N - 1)]
+                for j in range(N - 1):
+                    toks += [str(Rs[j + 1]), str(case["shape"][j])] + [str(int(v)) for v in ll[j][:Rs[j + 1]]]
+                ans = ctx.drv().call(" ".join(toks))
+                msets, pos = [], 1
+                while pos < len(ans):
+                    cnt = int(ans[pos + 1]); pos += 2
+                    rows = []
+                    for _ in range(cnt):
+                        ln = int(ans[pos]); rows.append([int(v) for v in ans[pos + 1:pos + 1 + ln]]); pos += 1 + ln
+                    msets.append(rows)
+                isets = [[[int(v) for v in row[1:]] for row in np.asarray(info["lsets"][j])] for j in range(1, N)]
+                ctx.count("model:cross_lsets")
+                if ans[0] != "ok" or msets != isets:
+                    ctx.corr("cross: info['lsets'] is not the nesting of the last sweep's left pivots (model lsetsAll): impl %s, model %s"
+                             % (isets, msets), case)
+                elif len(rec.calls) >= N + 1 and int(np.prod(case["shape"])) <= 1500 and max(Rs) <= 4:
+                    # arguments handed to the function in the last N evaluate_function calls (j = N-1 … 1, then 0) against the model's
+                    # interfaces / evalPoint (C08.evaluate_at_grid) for one argument tensor
+                    kk = case["seed"] % K
+                    if tg["src"] == "tensors":
+                        targ = PT.from_json(case["tensors"][kk])
+                    else:
+                        targ = core.from_tn(tn.meshgrid([T(d) for d in tg["domain"]])[kk])
+                    for j in range(N):
+                        call = rec.calls[-1] if j == 0 else rec.calls[len(rec.calls) - 1 - j]
+                        if call.shape[0] != Rs[j] * case["shape"][j] * Rs[j + 1]:
+                            ctx.count("model:cross_eval skipped (call sizes)"); break
+                        toks = ["cross_eval", targ.ser(), str(j), str(Rs[j]), str(Rs[j + 1])]
+                        for l in range(j):
+                            toks += [str(Rs[l + 1])] + [str(int(v)) for v in ll[l][:Rs[l + 1]]]
+                        for l in range(j + 1, N):
+                            toks += [str(Rs[l]), str(Rs[l + 1])] + [str(int(v)) for v in locs[l][:Rs[l]]]
+                        ans = ctx.drv().call(" ".join(toks))
+                        ctx.count("model:cross_eval")
+                        if ans[0] != "ok":
+                            ctx.corr("cross_eval: model answered %s" % (ans[:4],), case); break
+                        mv = np.array([float(core.unq(x.split("~")[0])) for x in ans[2:]])
+                        okv, errv = close(mv, call[:, kk], rtol=1e-9)
+                        if not okv:
+                            ctx.corr("cross: the arguments of the function in evaluate_function(%d) for argument tensor %d differ from the "
+                                     "model's interfaces·core (evalPoint): %s" % (j, kk, errv), case); break
+            except Exception as e:  # noqa
+                ctx.corr("cross model hook raised %s: %s" % (type(e).__name__, str(e)[:200]), case)
             cs = [num(c) for c in t.cores]
             piv = 0.0
             for j in range(1, N):
